@@ -29,7 +29,15 @@ type Loader struct {
 	loadWall  float64
 }
 
-const repoDir = "/repo"
+// repoDir is the tree that is loaded, encoded and compiled: /repo, unless
+// $GOSYM_REPO names another checkout (used only to evaluate seeded changes in
+// scratch worktrees; the registered checks never set it).
+var repoDir = func() string {
+	if d := os.Getenv("GOSYM_REPO"); d != "" {
+		return d
+	}
+	return "/repo"
+}()
 const modPath = "github.com/google/badwolf"
 
 // overlayFiles maps every file under verifDir/harness/<pkg>/ to
